@@ -403,6 +403,15 @@ func runChf(line string, t []string) string {
 	case "end":
 		cleanupCdrFiles()
 		return "ok"
+	case "slowdb":
+		ms := p.i()
+		if !p.ok {
+			return "bad-op"
+		}
+		store.mu.Lock()
+		store.putDelay = time.Duration(ms) * time.Millisecond
+		store.mu.Unlock()
+		return "ok"
 	case "reset":
 		// a fresh world: subscribers, accounts, sequence numbers
 		cleanupCdrFiles()
@@ -508,6 +517,15 @@ func genChf(o genOpts, w *bufio.Writer) {
 		for k, nf := range names {
 			fmt.Fprintf(w, "chf create %s\n", fmtReq("imsi-1", nf, 100+k, 0, 1, 0, nil, nil))
 		}
+		// empty consumer names and SUPIs that are prefixes of one another: "imsi-11"+""+0 vs "imsi-1"+""+10
+		fmt.Fprintf(w, "chf reset\n")
+		fmt.Fprintf(w, "chf create %s\n", fmtReq("imsi-11", "", 100, 0, 1, 0, nil, nil))
+		for k := 1; k < 10; k++ {
+			fmt.Fprintf(w, "chf create %s\n", fmtReq("imsi-2", r.pickStr("", "a"), 100+k, 0, 1, 0, nil, nil))
+		}
+		fmt.Fprintf(w, "chf create %s\n", fmtReq("imsi-1", "", 110, 0, 1, 0, nil, nil))
+		fmt.Fprintf(w, "chf create %s\n", fmtReq("imsi-111", "", 111, 0, 1, 0, nil, nil))
+		fmt.Fprintf(w, "chf create %s\n", fmtReq("imsi-1", "1", 112, 0, 1, 0, nil, nil))
 		fmt.Fprintf(w, "chf reset\n")
 		for k, nf := range []string{"23", "3", "", "2"} {
 			fmt.Fprintf(w, "chf create %s\n", fmtReq([]string{"imsi-1", "imsi-12", "imsi-123", "imsi-1"}[k], nf, 100+k, 0, 1, 0, nil, nil))
@@ -518,6 +536,10 @@ func genChf(o genOpts, w *bufio.Writer) {
 		counter = 0
 		// one scenario: 1-3 subscribers, 1-2 rating groups each, 1-2 sessions
 		nsub := 1 + r.intn(2)
+		huge := o.mode == "" && r.chance(6)     // volumes whose price lies between 2^31 and 2^32
+		if o.mode == "" && r.chance(8) {
+			fmt.Fprintf(w, "chf slowdb 15\n") // the account store writes slowly in this history
+		}
 		var sess []*genSess
 		rgs := []int{1, 2}
 		costs := []int{1, 2, 3, 7, 1000}
@@ -537,8 +559,14 @@ func genChf(o genOpts, w *bufio.Writer) {
 				}
 			}
 			cost := costs[r.intn(len(costs))]
+			if huge {
+				cost = 2
+			}
 			for _, rg := range rgs {
 				bal := r.pick(0, 1, 50, 150, 199, 200, 201, 999, 1000, 5000, 100000) * r.pick(1, 1, cost)
+				if huge {
+					bal = 12000000000
+				}
 				costStr := strconv.Itoa(cost)
 				if o.mode == "costs" {
 					// stored tariffs of every shape: the CHF and the rating server must decode them alike
@@ -593,16 +621,42 @@ func genChf(o genOpts, w *bufio.Writer) {
 				default:
 					used = r.intn(lg + 1)
 				}
-				lsn++
 				qmi := 1
 				if r.chance(8) {
 					qmi = 2
+				}
+				if huge {
+					req = r.pick(100, 1000000000, 1500000000, 2000000000)
+					switch r.intn(4) {
+					case 0:
+						used = lg
+					case 1:
+						used = lg / 2
+					case 2:
+						used = 0
+					}
 				}
 				reqTok := strconv.Itoa(req)
 				if r.chance(10) {
 					reqTok = "~" // a usage report that asks for nothing (no requestedUnit)
 				}
-				usages = append(usages, fmt.Sprintf("%d %s %s 1 %d %d %d %d %d %d", rg, reqTok, hexOf([]byte("upf1")), qmi, used, used/2, used-used/2, r.intn(3), lsn))
+				// the report spread over one to three containers
+				nc := 1
+				if r.chance(25) {
+					nc = 2 + r.intn(2)
+				}
+				var conts []string
+				left := used
+				for c := 0; c < nc; c++ {
+					part := left
+					if c < nc-1 {
+						part = left / 2
+					}
+					left -= part
+					lsn++
+					conts = append(conts, fmt.Sprintf("%d %d %d %d %d %d", qmi, part, part/2, part-part/2, r.intn(3), lsn))
+				}
+				usages = append(usages, fmt.Sprintf("%d %s %s %d %s", rg, reqTok, hexOf([]byte("upf1")), nc, strings.Join(conts, " ")))
 				s.lastGrant[rg] = req
 			}
 			var trigs []string
@@ -647,7 +701,13 @@ func genChf(o genOpts, w *bufio.Writer) {
 			fmt.Fprintf(w, "chf %s %s %s\n", op, hexOf([]byte(sid)), fmtReq(supiReq, s.nf, 100, i+1, 1, 0, trigs, usages))
 			done++
 			if o.mode == "api" && r.chance(10) {
-				fmt.Fprintf(w, "chf recharge %s\n", hexOf([]byte(r.pickStr(s.supi+"_1", s.supi+"_2", s.supi, s.supi+"_x", "imsi-404_1", s.supi+"_1_2", "_", s.supi+"_-3", s.supi+"_99999999999"))))
+				fmt.Fprintf(w, "chf recharge %s\n", hexOf([]byte(r.pickStr(s.supi+"_1", s.supi+"_2", s.supi, s.supi+"_x", "imsi-404_1", s.supi+"_1_2", "_", s.supi+"_-3", s.supi+"_99999999999",
+					s.supi+"_010", s.supi+"_08", s.supi+"_0x1", s.supi+"_+1", s.supi+"_ 1", s.supi+"_01"))))
+			}
+			if o.mode == "" && r.chance(6) {
+				// the operator changes the tariff (and re-bases the balance) in the middle of the history
+				fmt.Fprintf(w, "chf acct %s %d %s %s\n", hexOf([]byte(s.supi)), rgs[r.intn(2)], hexOf([]byte(strconv.Itoa(r.pick(500, 5000, 100000)))),
+					hexOf([]byte(strconv.Itoa(r.pick(1, 2, 3, 5, 7)))))
 			}
 			if r.chance(6) {
 				fmt.Fprintf(w, "chf credit %s %d %d\n", hexOf([]byte(s.supi)), rgs[r.intn(2)], r.pick(100, 1000, 5000))
